@@ -125,7 +125,7 @@ Section Scheme.
     NoDup (map cnum (cbins ref)).
 
   Definition crec_shape (R : irec) : Prop :=
-    q_placed R = true /\ 0 <= q_start R < q_end R /\ q_end R <= cs_limit ms dp /\ q_cb R < q_ce R.
+    q_placed R = true /\ 0 <= q_start R < q_end R /\ q_end R <= cs_limit ms dp + 1 /\ q_cb R < q_ce R.
 
   Record CInv (ix : cindex) (seen : list irec) (lrid lstart lend : Z) : Prop := mkCInv {
     ci_ms : c_ms ix = ms; ci_dp : c_dp ix = dp;
@@ -163,14 +163,14 @@ Section Scheme.
   Lemma cadd_placed_inv ix seen lrid lstart lend r :
     CInv ix seen lrid lstart lend -> q_placed r = true ->
     0 <= q_rid r -> lrid <= q_rid r -> (q_rid r = lrid -> lstart <= q_start r) ->
-    0 <= q_start r < q_end r -> q_end r <= cs_limit ms dp -> lend <= q_cb r < q_ce r ->
+    0 <= q_start r < q_end r -> q_end r <= cs_limit ms dp + 1 -> lend <= q_cb r < q_ce r ->
     exists ix', cs_add ix r = Ok ix' /\ CInv ix' (r :: seen) (q_rid r) (q_start r) (q_ce r).
   Proof.
     intros I Hp Hrid0 Hrid Hst Hse Hlim Hc.
     destruct I as [Ims Idp Ilen Ilrid Ilast Iuns Irefs Iseen].
     unfold cs_add. rewrite Ims, Idp.
     assert (V1 : cs_valid_pos (q_start r) ms dp = true) by (apply cs_valid_pos_iff; lia).
-    assert (V2 : cs_valid_pos (q_end r) ms dp = true) by (apply cs_valid_pos_iff; lia).
+    assert (V2 : cs_valid_pos (q_end r - 1) ms dp = true) by (apply cs_valid_pos_iff; lia).
     rewrite V1, V2, Hp. simpl negb. change (false || false) with false. cbv iota.
     set (rid := q_rid r) in *.
     destruct (rid <? zlen (c_refs ix) - 1) eqn:E1; [apply Z.ltb_lt in E1; lia|].
@@ -237,11 +237,12 @@ Section Scheme.
 
   Lemma cadd_unplaced_inv ix seen lrid lstart lend r :
     CInv ix seen lrid lstart lend -> q_placed r = false ->
-    -1 <= q_start r <= cs_limit ms dp -> -1 <= q_end r <= cs_limit ms dp ->
+    -1 <= q_start r <= cs_limit ms dp -> 0 <= q_end r <= cs_limit ms dp + 1 ->
     exists ix', cs_add ix r = Ok ix' /\ CInv ix' seen lrid lstart lend.
   Proof.
     intros I Hp H1 H2. unfold cs_add. destruct I. rewrite ci_ms0, ci_dp0.
-    rewrite (proj2 (cs_valid_pos_iff _ _ _) H1), (proj2 (cs_valid_pos_iff _ _ _) H2), Hp. simpl.
+    assert (H2' : -1 <= q_end r - 1 <= cs_limit ms dp) by lia.
+    rewrite (proj2 (cs_valid_pos_iff _ _ _) H1), (proj2 (cs_valid_pos_iff _ _ _) H2'), Hp. simpl.
     eexists. split; [reflexivity|]. constructor; simpl; try reflexivity; assumption.
   Qed.
 
